@@ -244,6 +244,12 @@ func validateVisitGroupField(fieldDef *datadictionary.FieldDef, fieldStack []Tag
 
 		// Start of repeating group.
 		if int(fieldStack[0].tag) == fieldDef.Fields[0].Tag() {
+			// Required members of the previous group that were not reached are missing.
+			for _, childDef := range childDefs {
+				if childDef.Required() {
+					return fieldStack, RequiredTagMissing(Tag(childDef.Tag()))
+				}
+			}
 			childDefs = fieldDef.Fields
 			groupCount++
 		}
